@@ -422,6 +422,12 @@ def _get_comp_cls_media(comp_cls: Type["Component"]) -> Any:
         if curr_cls in media_cache:
             continue
 
+        # Paths in `Media.js/css` may be relative to the component file, so they have to be resolved
+        # before we read them, same as when accessing `js`, `css` or `template`.
+        comp_media = curr_cls.__dict__.get("_component_media", None)
+        if comp_media is not None and not comp_media.resolved:
+            _resolve_media(curr_cls, comp_media)
+
         # Prepare base classes
         # NOTE: We take only the `Media` defined on THIS class. A `Media` found on a parent class
         #       (incl. its `extend`) describes the parent, and is applied when the parent is processed.
